@@ -135,6 +135,32 @@ example :
       [.write ["i", "q"] 1] = false := by
   decide
 
+/-- "leaves nothing behind in the scratch directory": at the level of the file system -- if
+an in-footprint run has removed, by the time it ends, everything under the temporaries it
+created (their names were fresh: nothing was there before), then every entry that is not a
+declared output is exactly as it was before the run: the scratch directory, and everything
+else, is restored. -/
+theorem scratch_listing_restored (d : Decl) (run : List Op) (fs : FS)
+    (hfoot : footprintOk d run = true)
+    (hfresh : ∀ q, under (freshOf run) q = true → fs q = none)
+    (hgone : ∀ q, under (freshOf run) q = true → exec fs run q = none)
+    (q : Path) (hout : q ∉ d.outputs) :
+    exec fs run q = fs q := by
+  cases hu : under (freshOf run) q with
+  | true => rw [hgone q hu, hfresh q hu]
+  | false => exact only_outputs_change d run fs q hfoot hu hout
+
+example :
+    let d : Decl := { scratch := [["s"]], outputs := [["o", "a.json"]], inputs := [["i", "q"]] }
+    let run : List Op := [.mkdtemp ["s", "t_1"], .mkstemp ["s", "t_1", "c_1.h5"], .openRO ["i", "q"],
+      .write ["s", "t_1", "c_1.h5"] 1, .write ["o", "a.json"] 2, .listdir ["s", "t_1"],
+      .unlink ["s", "t_1", "c_1.h5"], .rmdir ["s", "t_1"]]
+    let fs : FS := fun q => if q = ["s"] ∨ q = ["o"] ∨ q = ["i"] then some .dir
+      else if q = ["i", "q"] then some (.file 7) else none
+    footprintOk d run = true ∧ firstNotOk fs run 0 = none ∧
+      exec fs run ["s", "t_1"] = none ∧ exec fs run ["s", "t_1", "c_1.h5"] = none ∧
+      exec fs run ["o", "a.json"] = some (.file 2) := by
+  decide
 /-- "leaves nothing behind in the scratch directory it was given once it has returned; a
 mapping run also leaves nothing behind when it ends with an error" -- generic over the
 resource-skeleton IR: whatever is live (a temporary created directly under a directory the
@@ -196,5 +222,25 @@ theorem runMapping_every_path_clean {e : Exit} {σ' : Live}
     (hx : ExecL CTM.Generated.runMapping [] e σ') : σ' = [] := by
   apply scratch_restored [.norm, .ret, .exc] _ runMapping_restores_always _ hx
   cases e <;> simp
+
+/-! Helpers called inside the stages that own a scratch sub-directory (more of the code
+inside the model; the property itself speaks of the stages). -/
+
+/-- `find_markers_for_all_taxonomy_pairs_from_p_mask`, `create_p_value_mask_file`,
+`amalgamate_h5ad`, `pivot_csr_h5ad`, `transpose_by_way_of_disk`,
+`transpose_sparse_matrix_on_disk_v2`: `mkdtemp` directly followed by `try … finally:
+_clean_up` -- restored at every exit -/
+theorem helpers_restore_always :
+    restoresOn [.norm, .ret, .exc] CTM.Generated.findMarkersFromPMask = true ∧
+    restoresOn [.norm, .ret, .exc] CTM.Generated.createPValueMask = true ∧
+    restoresOn [.norm, .ret, .exc] CTM.Generated.amalgamateH5ad = true ∧
+    restoresOn [.norm, .ret, .exc] CTM.Generated.pivotCsrH5ad = true ∧
+    restoresOn [.norm, .ret, .exc] CTM.Generated.transposeByWayOfDisk = true ∧
+    restoresOn [.norm, .ret, .exc] CTM.Generated.transposeOnDiskV2 = true := by decide
+
+/-- `add_sparse_by_gene_markers_to_file`, `round_x_to_integers`: restored on return -/
+theorem helpers_restore_on_return :
+    restoresOn [.norm, .ret] CTM.Generated.addSparseByGene = true ∧
+    restoresOn [.norm, .ret] CTM.Generated.roundXToIntegers = true := by decide
 
 end CTM.C19
